@@ -254,3 +254,38 @@ def c06_md009_tab(case, rr):
     if not diff:
         return False
     return all(re.search(r"\t[ \t]* +$", lines[ln - 1]) for ln in diff)
+
+
+def _fp_diff(obs):
+    v = (obs.get("violations") or [{}])[0].get("detail") or {}
+    return v.get("before") or [], v.get("after") or []
+
+
+@matcher
+def c08_tab_in_code(case, rr):
+    """fingerprints differ only in code-block content, the document contains a TAB, and the
+    code contents are equal once tabs are replaced by spaces and space runs are collapsed"""
+    import re
+
+    obs = rr.get("observed") or {}
+    if "\t" not in (obs.get("doc") or ""):
+        return False
+    b, a = _fp_diff(obs)
+    if len(a) != len(b):
+        return False
+    sq = lambda s: re.sub(r"[ \t]+", " ", s)
+    diff = False
+    for x, y in zip(b, a):
+        if x != y:
+            if not (isinstance(x, list) and isinstance(y, list) and x[0] == "code" and y[0] == "code" and sq(x[2]) == sq(y[2])):
+                return False
+            diff = True
+    return diff
+
+
+@matcher
+def c08_blank_codespan(case, rr):
+    """a code span whose content is empty after trimming disappears when fixed"""
+    obs = rr.get("observed") or {}
+    b, a = _fp_diff(obs)
+    return any(isinstance(x, list) and x[0] == "codespan" and x[1] == "" for x in b) and not any(isinstance(x, list) and x[0] == "codespan" and x[1] == "" for x in a)
